@@ -3,20 +3,22 @@ import gen_bitvec
 
 FAMILY = "bitvec"
 TRACE_SPEC = "Trace_BitVec"
-PROPS = ["C06", "C14", "C11", "C12", "C15"]
+PROPS = ["C06", "C14", "C10", "C11", "C12", "C15"]
 
 
 def mc(prop, tier):
     q = tier == "quick"
     if prop in ("C12", "C15"):
         return []
+    if prop == "C10":
+        return [("MC_BitVec", "MC_BitVec_small2.cfg", ["MC_BitVec.Mutate"])]
     return [("MC_BitVec", "MC_BitVec_small2.cfg" if q else "MC_BitVec_small.cfg",
              ["MC_BitVec.Construct", "MC_BitVec.Mutate"])]
 
 
 def exports(prop, tier):
     q = tier == "quick"
-    if prop in ("C11", "C12", "C15"):
+    if prop in ("C10", "C11", "C12", "C15"):
         return []
     return [("tlc", "MC_BitVec", "MC_BitVec_w64_d2.cfg" if q else "MC_BitVec_w64_d3.cfg")]
 
@@ -30,6 +32,12 @@ def episodes(prop, tier, seed):
             out["rand-release"] = (gen_bitvec.random_episodes(seed + 1, 5000), "release")
     if prop == "C14":
         out["dirty"] = (gen_bitvec.dirty_episodes(seed, 1500 if q else 20000), "verif")
+    if prop == "C10":
+        # the BitVec part of C10: fill / flip / reset / count_ones and their par_ and atomic variants equal the
+        # per-element loops, on clean, shrunk and dirty vectors (spec: BitVec!Eff)
+        out["bulk"] = (gen_bitvec.bulk_episodes(seed, 500 if q else 8000), "verif")
+        if not q:
+            out["bulk-release"] = (gen_bitvec.bulk_episodes(seed + 1, 3000), "release")
     if prop == "C11":
         out["space"] = (gen_bitvec.space_episodes(seed, 300 if q else 5000), "verif")
     if prop == "C12":
